@@ -14,7 +14,7 @@ RULE = ('event_timeout in {0.5, 1.0} on parent and/or child; handler shapes: pau
 ASSUMPTIONS = ['virtual time: a deadline fires exactly at start+timeout; computation takes no time',
                'a handler interrupted because an enclosing awaiting handler timed out may end with any terminal error result; only the handler whose own deadline passed must show TimeoutError']
 
-EPS = 1e-4
+EPS = 3e-3  # the datetime shim may run up to a few ms ahead of the virtual clock inside one instant
 
 
 def families(tier):
@@ -62,6 +62,24 @@ def families(tier):
             out.append(dict(prop='C10', family='c10.timeouts', id=f'c10/{shape}-p{tp}-c{tc}-s{int(second)}-k{k}-o{"".join(order)}', cfg=cfg,
                             params=dict(shape=shape, tp=tp, tc=tc),
                             scn=dict(buses={b: {} for b in names}, order=order, handlers=hs, main=main, actors=[], forwards=[], settle=2.0)))
+    # 'slow callbacks': a pending deadline may also fire at the first busy boundary after any harness-visible step, i.e. in the middle of
+    # the library's own bursts (handler clean-up, completion propagation) and not only while everything is idle
+    for shape, tp, tc, k in itertools.product(['aw_same', 'aw_other', 'aw_same_g', 'kids_pause'], (0.5,), (None, 1.0), (0, 1)):
+        other = 'other' in shape
+        names = ['A', 'B'] if other else ['A']
+        cb = 'B' if other else 'A'
+        copt = {} if tc is None else {'timeout': tc}
+        hp = {'aw_same': [('pause',)] * k + [('disp', 'A', 'C', 'await', copt), ('pause',)], 'aw_other': [('pause',)] * k + [('disp', 'B', 'C', 'await', copt), ('pause',)],
+              'aw_same_g': [('pause',)] * k + [('disp', 'A', 'C', 'await', copt), ('pause',)], 'kids_pause': [('disp', 'A', 'C', 'ff', copt), ('pause',), ('pause',)]}[shape]
+        hc = [('disp', cb, 'G', 'await'), ('pause',)] if shape.endswith('_g') else [('pause',)]
+        hs = [dict(bus='A', pat='P', name='hp', prog=hp), dict(bus='A', pat='P', name='hp_next', prog=[('ret', 2)]), dict(bus=cb, pat='C', name='hc', prog=hc),
+              dict(bus=cb, pat='G', name='hg', prog=[('pause',)])]
+        for b in names:
+            hs.append(dict(bus=b, pat='X', name='hs' + b, prog=[('ret', 0)]))
+        main = [('disp', 'A', 'P', 'ff', {'timeout': tp}), ('pause',)] + [('disp', b, 'X', 'ff') for b in names] + [('idle', b) for b in names]
+        out.append(dict(prop='C10', family='c10.timeouts_slow_callbacks', id=f'c10/slow-{shape}-p{tp}-c{tc}-k{k}', cfg=dict(cfg, busy_timers=1, cap=30000 if deep else 2500),
+                        params=dict(shape=shape, tp=tp, tc=tc, slow=True),
+                        scn=dict(buses={b: {} for b in names}, order=names, handlers=hs, main=main, actors=[], forwards=[], settle=2.0)))
     # parallel_handlers: the awaited child has two concurrently running handlers when the parent's deadline lands
     for cb, par_a, par_b, tp, tc in itertools.product('AB', (False, True), (False, True), (0.5,), (None, 1.0)):
         if cb == 'A' and not par_a:
@@ -108,6 +126,13 @@ def oracle(spec, res):
         out.append(V('main_raised', str(res['verdict'])))
     ivs = tr.intervals()
     enter_t = {en[6]: en[1] for en in tr.enters}
+    # the library arms the handler's deadline when it marks the result 'started' (just before the handler's first step): with the
+    # 'slow callback' deviation virtual time may pass in between, so deadlines are counted from that instant (virtual timestamp shim)
+    for en in tr.enters:
+        fe = res['final']['events'].get(en[4], {})
+        for r in fe.get('results', []):
+            if r['bus'] == en[2] and r['h'] == en[3] and r.get('started_v') is not None and r['started_v'] <= en[1] + 1e-9:
+                enter_t[en[6]] = min(enter_t[en[6]], r['started_v']) if en[1] - r['started_v'] > EPS else en[1]
     exit_rec = {ex[6]: ex for ex in tr.exits}
     end_t = res['log'][-1][1] if res['log'] else 0.0
     for (a, b, bus, h, ev, who) in ivs:
@@ -122,6 +147,22 @@ def oracle(spec, res):
                 if to2 is not None:
                     enclosing.append(enter_t[who2] + to2)
         ex = exit_rec.get(who)
+        slow = bool(spec['params'].get('slow'))
+        if slow and ex is not None:
+            # with slow callbacks a cancellation issued at the deadline may be *delivered* later (more virtual time passes before the
+            # cancelled task gets its turn): only "not before any applicable deadline" can be asserted about the instant
+            if ex[5] == 'cancelled':
+                ds = ([own_deadline] if own_deadline is not None else []) + enclosing
+                if ds and ex[1] < min(ds) - EPS:
+                    out.append(V('cancelled_before_any_deadline', f'{who} entered {t0} cancelled at {ex[1]}, deadlines own={own_deadline} enclosing={enclosing}'))
+                later = [r for r in res['log'] if r[0] > ex[0] and r[2] in ('resumed', 'dispatch', 'await-begin', 'await-end') and r[3] == who]
+                if later:
+                    out.append(V('cancelled_handler_kept_running', f'{who}: {later[:2]}'))
+            elif own_deadline is not None and ex[1] > own_deadline + EPS:
+                # the cancellation is issued in the loop iteration in which the deadline becomes due; a handler that still took steps in
+                # later iterations and finished normally was never stopped
+                out.append(V('handler_outlived_its_deadline', f'{who} armed at {t0} timeout {to} exited {ex[5]} at {ex[1]}'))
+            continue
         if ex is None:
             if own_deadline is not None and end_t > own_deadline + EPS:
                 out.append(V('handler_not_cancelled_at_deadline', f'{who} entered at {t0}, timeout {to}, still running at {end_t}', inline_await=inline))
